@@ -6,5 +6,8 @@ SelQuick == { Atom("p", {1}, TRUE), Atom("p", {2, 3}, TRUE), Atom("p", {1, 2}, T
 SelProj  == { Atom("p", {1}, TRUE), Atom("p", {2, 3}, TRUE), Atom("r", {1}, FALSE), Atom("r", {1, 2}, FALSE) }
 \* four variables, one atom each (p mergeable, the others not): for the Fam3 inputs of the Proj configuration
 SelFour  == { Atom("p", {1}, TRUE), Atom("r", {1}, FALSE), Atom("q", {1}, FALSE), Atom("t", {1}, FALSE) }
+\* three variables, two atoms on two of them (for the Fam4 inputs of the Proj configuration)
+SelFive  == { Atom("p", {1}, TRUE), Atom("p", {2}, TRUE), Atom("q", {1}, FALSE), Atom("q", {2}, FALSE), Atom("r", {1}, FALSE) }
 SelTiny  == { Atom("p", {1}, TRUE), Atom("p", {2, 3}, TRUE), Atom("r", {1}, FALSE) }
+
 =============================================================================
